@@ -17,6 +17,10 @@ func collect() {
 		}
 	}
 	addInt("c16MaxWeightUses", itoa(n256), "number of literal 256 in RebalanceWeight (HAProxy max weight)")
+	// ---- C13
+	rl := "pkg/utils/workqueue/ratelimiters.go"
+	addStrList("c13ReloadWhenCalls", methodCalls(rl, "reloadHAProxy", "When"), "selector calls inside reloadHAProxy.When, in source order")
+	addStrList("c13IngressWhenCalls", methodCalls(rl, "ingressReconciler", "When"), "selector calls inside ingressReconciler.When, in source order")
 }
 
 func itoa(i int) string { return fmtInt(i) }
